@@ -263,6 +263,7 @@ func runSplineTrace(fs *flag.FlagSet, prop string, seed uint64, n int, outDir, f
 		shard.Reset()
 		sshard.Reset()
 	}
+	stuck := 0
 	for i := range entries {
 		e := &entries[i]
 		c := e.Case
@@ -281,7 +282,29 @@ func runSplineTrace(fs *flag.FlagSet, prop string, seed uint64, n int, outDir, f
 				}
 			}
 		}
-		e.LongEdge = hasLongEdge(c)
+		// (the classification lays the input out with polyline routing, in this process: under a watchdog, because a change that
+		// makes Layout spin must end in a report, not in a check that never returns)
+		if stuck >= 3 {
+			e.Outcome, e.Error = "hang", "not evaluated: three earlier inputs already did not return with polyline routing"
+			continue
+		}
+		leCh := make(chan bool, 1)
+		go func() {
+			defer func() {
+				if rec := recover(); rec != nil {
+					leCh <- false
+				}
+			}()
+			leCh <- hasLongEdge(c)
+		}()
+		select {
+		case le := <-leCh:
+			e.LongEdge = le
+		case <-time.After(20 * time.Second):
+			stuck++
+			e.Outcome, e.Error = "hang", "Layout with polyline routing did not return within 20 s on this input"
+			continue
+		}
 		if e.Outcome == "hang" && !e.LongEdge && !e.ZeroWidth && confirmHang(c) {
 			e.Outcome, e.Detail = "ok", "" // outside the recorded class and the call returns in a fresh process: a busy machine
 		}
